@@ -283,9 +283,9 @@ func check(c *tcase, variant string, got []int, panicked string) {
 		case c.Cyclic && strings.Contains(panicked, "cycle detected"):
 			report("toposort:cycle-panic", c, variant, fmt.Sprintf("panic %q after yielding %v; model: terminate and yield %v once each", panicked, got, c.Reach))
 		case c.Cyclic:
-			report("toposort:cyclic-other-panic", c, variant, panicked)
+			report("toposort:panic-unexpected", c, variant, "reachable cycle, but not the documented cycle panic: "+panicked)
 		default:
-			report("toposort:panic-on-dag", c, variant, panicked)
+			report("toposort:panic-unexpected", c, variant, "no cycle reachable: "+panicked)
 		}
 		return
 	}
